@@ -495,67 +495,78 @@ func C10real(r *ev.Report) {
 	completed := 0
 
 	for d := 1; d <= depth && len(frontier) > 0; d++ {
-		succ := make([][]c10Node, len(frontier))
-
-		r.ParFor(len(frontier), func(_, fi int) {
-			nd := frontier[fi]
-			local := make([]c10Node, 0, len(ops))
-
-			for oi, o := range ops {
-				ns, nm, key, detail := c10Apply(nd.st, nd.m, o)
-				r.Transitions.Add(1)
-				r.Evals.Add(1)
-
-				if key != "" {
-					c := Case{"op": "history", "path": fmt.Sprint(append(append([]int{}, nd.path...), oi))}
-					r.Violation(key, detail+fmt.Sprintf(" (history of %d operations)", len(nd.path)+1), c)
-
-					continue
-				}
-
-				if d == depth {
-					// last level: only the state's identity is needed (for the count of distinct states)
-					local = append(local, c10Node{st: ns})
-					continue
-				}
-
-				local = append(local, c10Node{ns, nm, append(append(make([]int, 0, len(nd.path)+1), nd.path...), oi)})
-			}
-
-			succ[fi] = local
-		})
-
 		var next []c10Node
 
 		nNew := 0
 
-		for _, l := range succ {
-			for _, nd := range l {
-				k := nd.st.key()
-				if !seen[k] {
-					seen[k] = true
+		// the frontier is expanded in chunks so that the successors held in memory at any time stay bounded
+		const chunk = 4096
 
-					if d < depth {
-						next = append(next, nd)
-					} else {
-						nNew++
+		for lo := 0; lo < len(frontier); lo += chunk {
+			hi := lo + chunk
+			if hi > len(frontier) {
+				hi = len(frontier)
+			}
+
+			part := frontier[lo:hi]
+			succ := make([][]c10Node, len(part))
+
+			r.ParFor(len(part), func(_, fi int) {
+				nd := part[fi]
+				local := make([]c10Node, 0, len(ops))
+
+				for oi, o := range ops {
+					ns, nm, key, detail := c10Apply(nd.st, nd.m, o)
+					r.Transitions.Add(1)
+					r.Evals.Add(1)
+
+					if key != "" {
+						c := Case{"op": "history", "path": fmt.Sprint(append(append([]int{}, nd.path...), oi))}
+						r.Violation(key, detail+fmt.Sprintf(" (history of %d operations)", len(nd.path)+1), c)
+
+						continue
+					}
+
+					if d == depth {
+						// last level: only the state's identity is needed (for the count of distinct states)
+						local = append(local, c10Node{st: ns})
+						continue
+					}
+
+					local = append(local, c10Node{ns, nm, append(append(make([]int, 0, len(nd.path)+1), nd.path...), oi)})
+				}
+
+				succ[fi] = local
+			})
+
+			for _, l := range succ {
+				for _, nd := range l {
+					k := nd.st.key()
+					if !seen[k] {
+						seen[k] = true
+
+						if d < depth {
+							next = append(next, nd)
+						} else {
+							nNew++
+						}
 					}
 				}
 			}
+
+			if r.Expired() {
+				break
+			}
+		}
+
+		if r.Expired() {
+			r.Incomplete(fmt.Sprintf("wall-clock guard during depth %d", d))
+			break
 		}
 
 		completed = d
 		r.Bound(fmt.Sprintf("new_states_at_depth_%d", d), len(next)+nNew)
 		frontier = next
-
-		if d == depth {
-			break
-		}
-
-		if r.Expired() {
-			r.Incomplete(fmt.Sprintf("wall-clock guard after depth %d", d))
-			break
-		}
 	}
 
 	if g := secp256k1.VerifAllGlobals(); g != globals {
